@@ -4,6 +4,7 @@
 //!
 //! Input: NDJSON, one job per line: {"q": [code points]} or {"qs": "text"}; optional
 //!   "reset": true (fresh context before this job), "render": true (also text / spans / JSON),
+//!   "dateval": true (C14: also the date value of a plain expression, see obs::datetime_json),
 //!   "expr": <AST json> (C11: print this expression instead of parsing text),
 //!   "clear_ans" / "preset" / "slim" / "st" (C15: see run_job).
 //! Output: one line per job: {"q", "ast", "obs", "ms"} or {"q", "crash": ...}.
@@ -147,6 +148,16 @@ fn run_job(ctx: &mut Context, job: &Value) -> Value {
             Err(e) => serde_json::to_value(e).map(|v| v.to_string().len()),
         };
         out["render"] = json!({"plain_len": plain.len(), "spans": spans, "json_ok": js.is_ok()});
+    }
+    if job["dateval"].as_bool().unwrap_or(false) {
+        // C14: when the query is a plain expression whose value is a date, the value itself (not only the
+        // reply made from it): seconds since the Unix epoch, nanoseconds, the exact UTC offset in seconds
+        // (a reply shows offsets rounded to minutes) and the variant (fixed offset / named zone).
+        if let rink_core::ast::Query::Expr(ref e) = query {
+            if let Ok(rink_core::Value::DateTime(d)) = ctx.eval(e) {
+                out["dateval"] = rv_harness::obs::datetime_json(&d);
+            }
+        }
     }
     if let Some(prev) = &ctx.previous_result {
         out["ans"] = rv_harness::obs::number_json(prev);
